@@ -175,6 +175,10 @@ type sim struct {
 	excusedNoMarker  bool
 	knownShortHeader bool
 	probeNontrivial  bool
+
+	// a tick of the group's limit checks scheduled behind the armTick-th low-level Group.Write from now
+	armTick   int
+	tickFired *tickObs
 }
 
 func (s *sim) head() *fileM { return s.files[len(s.files)-1] }
@@ -249,6 +253,8 @@ func (s *sim) open() {
 		s.infra("NewWAL: %v", err)
 	}
 	w.SetFlushInterval(time.Hour)
+	s.armTick, s.tickFired = 0, nil
+	w.VerifC15AfterEachGroupWrite(s.afterGroupWrite)
 	// BaseWAL.OnStart: an empty head gets EndHeightMessage{0}, written with WriteSync
 	h := s.head()
 	if len(h.segs) == 0 {
@@ -854,10 +860,15 @@ func (s *sim) write(msg consensus.WALMessage, kind string, sync bool) {
 	} else {
 		err = s.wal.Write(msg)
 	}
+	fired := s.tickFired
+	s.armTick, s.tickFired = 0, nil
 	if err != nil {
 		// not acknowledged; the encoder refuses before writing anything (only over-sized messages get here)
 		if !strings.Contains(err.Error(), "too big") {
 			s.fail("Write: %v", err)
+		}
+		if fired != nil {
+			s.fail("a refused record reached the autofile group")
 		}
 		s.class("write:rejected-too-big")
 		s.note("reject(%s)", kind)
@@ -867,6 +878,12 @@ func (s *sim) write(msg consensus.WALMessage, kind string, sync bool) {
 	s.nextSeq++
 	h := s.head()
 	h.segs = append(h.segs, seg{r: r})
+	if fired != nil {
+		// the tick ran while this record was being handed to the group
+		s.class("tick-between-group-writes")
+		s.note("TICK-IN-WRITE")
+		s.tickModel(*fired)
+	}
 	if sync {
 		s.ackAll()
 		if s.tornReopen {
@@ -913,19 +930,53 @@ func (s *sim) flushAndSync() {
 }
 
 // checkLimits runs one tick of the group's limit checks and follows what it did.
+// tickObs is what one tick of the group's limit checks did, as far as the harness can see from outside.
+type tickObs struct {
+	maxBefore, maxAfter int
+	rotated             []byte // content of the file the head was renamed to, read before the total-size check can remove it
+	headMid             int64  // size of the head file between the two checks
+}
+
+// tickReal runs one tick of processTicks: head-size check (rotation), then total-size check (discarding).
+func (s *sim) tickReal() tickObs {
+	g := s.wal.Group()
+	var o tickObs
+	o.maxBefore = g.MaxIndex()
+	g.VerifC15CheckHeadSizeLimit()
+	o.maxAfter = g.MaxIndex()
+	if o.maxAfter == o.maxBefore+1 {
+		o.rotated = s.readFile(fmt.Sprintf("wal.%03d", o.maxBefore))
+		if o.rotated == nil {
+			o.rotated = []byte{}
+		}
+	}
+	if fi, err := os.Stat(s.path); err == nil {
+		o.headMid = fi.Size()
+	}
+	g.VerifC15CheckTotalSizeLimit()
+	if g.MaxIndex() != o.maxAfter {
+		s.fail("total-size check moved MaxIndex from %d to %d", o.maxAfter, g.MaxIndex())
+	}
+	return o
+}
+
+// checkLimits runs one tick between two records and follows what it did.
 func (s *sim) checkLimits() {
 	s.syncHead()
-	g := s.wal.Group()
-	maxBefore := g.MaxIndex()
-	g.VerifC15CheckHeadSizeLimit()
-	maxAfter := g.MaxIndex()
+	s.tickModel(s.tickReal())
+}
+
+// tickModel follows a tick in the model. Everything written before the tick belongs to the files as they were
+// before it: a rotation moves whole records, never part of one.
+func (s *sim) tickModel(o tickObs) {
+	maxBefore, maxAfter := o.maxBefore, o.maxAfter
 	switch {
 	case maxAfter == maxBefore+1:
 		// rotated: the head, flushed and synced, became the numbered file maxBefore
 		h := s.head()
 		h.name = fmt.Sprintf("wal.%03d", maxBefore)
 		h.idx = maxBefore
-		b := s.readFile(h.name)
+		b := o.rotated
 		s.walk(h, b, true)
 		s.ackAll()
 		if len(b) == 0 {
@@ -937,11 +988,6 @@ func (s *sim) checkLimits() {
 		s.note("ROT(%d)", maxBefore)
 	case maxAfter != maxBefore:
 		s.fail("limit check moved MaxIndex from %d to %d", maxBefore, maxAfter)
-	}
-	s.syncHead()
-	g.VerifC15CheckTotalSizeLimit()
-	if g.MaxIndex() != maxAfter {
-		s.fail("total-size check moved MaxIndex from %d to %d", maxAfter, g.MaxIndex())
 	}
 	// discarded files: only whole oldest files, never the head
 	present := s.listNumbered()
@@ -961,14 +1007,11 @@ func (s *sim) checkLimits() {
 		removed = nNumbered
 	}
 	if removed > 0 {
-		var dropped, droppedSynced int
+		var dropped int
 		for _, f := range s.files[:removed] {
 			for _, sg := range f.segs {
 				if sg.r != nil {
 					dropped++
-					if sg.r.synced {
-						droppedSynced++
-					}
 				}
 			}
 		}
@@ -989,12 +1032,27 @@ func (s *sim) checkLimits() {
 		}
 	}
 	// the head survives
-	if s.headSize > 0 {
+	if o.headMid > 0 {
 		if _, err := os.Stat(s.path); err != nil {
 			s.fail("(1) the head file is gone after the size-limit check: %v", err)
 		}
 	}
 	s.syncHead()
+}
+
+// afterGroupWrite is called by the interposed writer whenever a Write of the autofile group has returned. When the
+// history has armed a tick for this low-level write, the group's ticker "wins the mutex" here: one tick of the limit
+// checks runs between two Group.Write calls of the code under test - after a record on a WAL that hands each record
+// to the group in one piece, inside a record otherwise.
+func (s *sim) afterGroupWrite() {
+	if s.armTick <= 0 {
+		return
+	}
+	s.armTick--
+	if s.armTick == 0 {
+		o := s.tickReal()
+		s.tickFired = &o
+	}
 }
 
 func (s *sim) cleanReopen() {
@@ -1403,24 +1461,45 @@ func TestWALHistories(t *testing.T) {
 		s.startup()
 		s.fullScan("initially")
 
-		writeOp := func(sync bool) func(*rapid.T) {
-			return func(t *rapid.T) {
-				msg, kind := genMsg(t, s.nextSeq, s.ehNext)
-				s.write(msg, kind, sync)
-			}
-		}
-		endHeight := func(t *rapid.T) {
-			s.write(consensus.EndHeightMessage{Height: s.ehNext}, "endheight", true)
-		}
-		limits := func(t *rapid.T) {
-			s.checkLimits()
-			// real nodes keep far more than one height in the log (1 GB against a few MB per height), so the marker
-			// of the previous height is always there to replay from; with limits this small it can be discarded:
-			// then the height ends right away
+		// real nodes keep far more than one height in the log (1 GB against a few MB per height), so the marker
+		// of the previous height is always there to replay from; with limits this small it can be discarded:
+		// then the height ends right away
+		keepMarker := func() {
 			if !s.tainted && !s.hasMarker(s.ehNext-1) {
 				s.class("marker-discarded:height-ended")
 				s.write(consensus.EndHeightMessage{Height: s.ehNext}, "endheight", true)
 			}
+		}
+		// the group's ticker goroutine runs whenever it gets the group's mutex, i.e. also between two Write calls
+		// the WAL makes for one operation: in 1 of 5 writes a tick is scheduled behind the 1st, 2nd or 3rd
+		// low-level write (if the operation makes that many)
+		armTick := func(t *rapid.T) {
+			if rapid.IntRange(0, 4).Draw(t, "tickInWrite") == 0 {
+				s.armTick = rapid.IntRange(1, 3).Draw(t, "tickAfterGroupWrite")
+			}
+		}
+		writeOp := func(sync bool) func(*rapid.T) {
+			return func(t *rapid.T) {
+				msg, kind := genMsg(t, s.nextSeq, s.ehNext)
+				armTick(t)
+				nPrune := s.nPrune
+				s.write(msg, kind, sync)
+				if s.nPrune != nPrune {
+					keepMarker()
+				}
+			}
+		}
+		endHeight := func(t *rapid.T) {
+			armTick(t)
+			nPrune := s.nPrune
+			s.write(consensus.EndHeightMessage{Height: s.ehNext}, "endheight", true)
+			if s.nPrune != nPrune {
+				keepMarker()
+			}
+		}
+		limits := func(t *rapid.T) {
+			s.checkLimits()
+			keepMarker()
 		}
 		scan := func(t *rapid.T) {
 			s.fullScan("live")
